@@ -115,29 +115,34 @@ ASSUMPTIONS = ["default edge-type names", "Tetrad labels: strings without whites
                "ananke / causallearn packages not installed: only pywhy-graphs' own matrix functions are in scope",
                "a pair state is 'expressible' as defined by C14/Defs.v adm (clearn <=2 edge types per ADMG pair, tetrad 1, pcalg no ADMG)"]
 SPOT_N = 25
-LEVEL_TEXT = ("Coq (15 theorems, all closed under the global context). UNBOUNDED: pair_roundtrip_f_c / pair_roundtrip_inv_f_c (decode(encode s) = s "
+LEVEL_TEXT = ("Coq (17 theorems, all closed under the global context). UNBOUNDED: pair_roundtrip_f_c / pair_roundtrip_inv_f_c (decode(encode s) = s "
               "for every expressible pair state of every format x class, and every accepted code pair re-encodes to itself; 64-state "
               "kernel computations, complete for the pair domain), documented_codes_hold (pcalg PAG 2/3, pcalg CPDAG 0/1, causal-learn "
               "-1/1/2/4/5/6, numpy 1/2/10/20 summed, the nine Tetrad strings), export_import_f_c (import(export g) has the same nodes and "
-              "the same marks in every layer between every two nodes; any number of nodes, any node order, by induction over the pair "
-              "list), export_entries_are_documented_codes, ts_array_roundtrip_thm / _inv_thm (lag arrays). PARTIAL: "
-              "import_export_f_c_partial is entry-wise on the node pairs (shape/diagonal of the matrix not restated). These are about "
-              "the hand-written codecs the property demands (C14/Model.v). Tie (T): the per-pair chains of graph_to_clearn, "
-              "clearn_to_graph, graph_to_pcalg, pcalg_to_graph, numpy_to_graph, graph_to_tetrad, tetrad_to_graph and the enums / "
-              "EDGE_TO_VALUE_MAPPING of config.py are re-translated from the repo under test on every run into Gallina tables "
-              "(Gen/Gen_Codecs.v, Gen_Enums.v) and the repo_* theorems prove by kernel computation that those tables, composed with the "
-              "hand-written loop glue, realise the demanded codecs on every expressible state (a semantic change of a chain breaks the "
-              "proof). Tie (K): graph_to_numpy (array arithmetic, no per-pair chain), all loop glue, file I/O and the ts converters are "
-              "tied by correspondence only, on the inputs listed under 'rule'.")
-LEVEL_NOTE = ("Tie per codec: (T)+(K) causal-learn encoder/decoder, pcalg remap/decoder, numpy decoder, Tetrad edge-string chain and "
-              "endpoint parser, config enums; (K) only: graph_to_numpy, tsgraph_to_numpy / numpy_to_tsgraph, the node-pair loops "
-              "(argwhere order, memo maps, transposition), insertion guards of PAG/CPDAG.add_edge during import (the generated decoder "
-              "tables record add_edge calls; the guards are only observed through the round trip). Trusted: Coq kernel incl. vm_compute, "
-              "extraction + driver.ml, harness, and the translator /verif/translator/codecs.py - a whitelisting interpreter of the loop "
-              "bodies' ast over the finite pair domain that imports nothing from the repo and fails closed on any other construct; its "
-              "727 table cells are compared with the real functions on two-node inputs on every run. 'Expressible' (C14/Defs.v adm): "
-              "ADMG pairs with <=2 edge types for causal-learn, 1 for Tetrad, no ADMG for pcalg; graph-level acyclicity is not part of "
-              "the theorems. numpy / networkx are modelled, not verified.")
+              "the same marks in every layer between every two nodes), import_export_f_c (for every well-formed matrix - square over "
+              "the order, zero diagonal, every off-diagonal entry pair in the image of the class's pair encoder - export(import m) = m as "
+              "a matrix: shape, diagonal and every entry; also for whatever the importer accepts, and exported matrices are well formed), "
+              "export_entries_are_documented_codes - all for any number of nodes and any node order, by induction over the pair list; "
+              "ts_array_roundtrip_thm / _inv_thm (lag arrays). These are about the hand-written codecs the property demands "
+              "(C14/Model.v). Tie (T): graph_to_numpy (whole function, per-layer weights and sum, on the two-node graph), the per-pair "
+              "chains of numpy_to_graph, graph_to_clearn, clearn_to_graph, graph_to_pcalg, pcalg_to_graph, graph_to_tetrad, "
+              "tetrad_to_graph and the enums / EDGE_TO_VALUE_MAPPING of config.py are re-translated from the repo under test on every run "
+              "into Gallina tables (Gen/Gen_Codecs.v, Gen_Enums.v) and the repo_* theorems prove by kernel computation that those "
+              "tables, composed with the hand-written loop glue, realise the demanded codecs on every expressible state (a semantic "
+              "change of a chain breaks the proof). Tie (K): the loop / array glue (that the n-node conversion is the pairwise one: "
+              "nodelist ordering, argwhere order, memo maps, transposition), file I/O and the ts converters are tied by correspondence "
+              "only, on the inputs listed under 'rule'.")
+LEVEL_NOTE = ("Tie per codec: (T)+(K) numpy encoder and decoder, causal-learn encoder/decoder, pcalg remap/decoder, Tetrad edge-string "
+              "chain and endpoint parser, config enums; (K) only: tsgraph_to_numpy / numpy_to_tsgraph, the node-pair loops and the "
+              "lifting of graph_to_numpy's elementwise array operations from 2 to n nodes (nx.to_numpy_array with nodelist, masks, +=; "
+              "the translator rejects a to_numpy_array call without nodelist=<the graph's nodes>), insertion guards of "
+              "PAG/CPDAG.add_edge during import (the generated decoder tables record add_edge calls; the guards are only observed "
+              "through the round trip). Trusted: Coq kernel incl. vm_compute, extraction + driver.ml, harness, and the translator "
+              "/verif/translator/codecs.py - a whitelisting interpreter of the functions' ast over the finite pair domain with mock "
+              "graph / array objects, which imports nothing from the repo and fails closed on any other construct; its 815 table cells "
+              "are compared with the real functions on two-node inputs on every run. 'Expressible' (C14/Defs.v adm): ADMG pairs with "
+              "<=2 edge types for causal-learn, 1 for Tetrad, no ADMG for pcalg; graph-level acyclicity is not part of the theorems. "
+              "numpy / networkx are modelled, not verified.")
 TECHNIQUE = ("Coq proof (64-state kernel computations + induction over the pair list, unbounded in n) about hand-written codecs; "
              "Python-ast -> Gallina table translator regenerated every run with proofs over the generated tables (tie T); "
              "extracted-model correspondence on exhaustive 2-3 node graphs / matrices / Tetrad files / ts arrays (tie K)")
@@ -700,6 +705,16 @@ def cell_check():
                 n += 1
                 if exp != got:
                     note("enc_clearn", [cls, k], exp, got)
+            nrow = T["enc_numpy"][cls][k]
+            try:
+                arr = enp.graph_to_numpy(G)
+                got = (int(arr[0, 1]), int(arr[1, 0])) if arr[0, 0] == 0 and arr[1, 1] == 0 else "diag"
+            except Exception:  # noqa
+                got = "raise"
+            exp = tuple(nrow[1]) if nrow[0] == "pair" else nrow[0]
+            n += 1
+            if exp != got:
+                note("enc_numpy", [cls, k], exp, got)
             trow = T["enc_tetrad"][cls][k]
             with tempfile.TemporaryDirectory(prefix="c14_") as d:
                 try:
